@@ -169,3 +169,17 @@ Proof.
     eapply (E_rep _ _ _ _ []); [split; vm_compute; discriminate|constructor].
   - split; [vm_compute; reflexivity|]. split; [vm_compute; reflexivity|]. vm_compute. discriminate.
 Qed.
+
+From WaxProofs Require Import ContiguousFacts.
+
+(* the arithmetic behind the 13th repair (83c38c1): the depth terms that the fold multiplies by an unbounded range - every member zero, one,
+   or without upper bound and with a lower bound of at most one - are those for which one more copy of the body can add exactly one
+   component, so the depths reachable by repeating the body are closed under successor; a term with gaps is not ({2,4}:
+   `<{*/*/,*/*/*/*/}:1,>*` matched `a/b/c` and not `a/b/c/z` while reporting Always) *)
+Theorem C09_contiguous_terms_reach_the_next_depth : forall D, forallb nvar_contiguous D = true -> (exists d, In d D /\ d <> Inv 0%N) ->
+  forall n s, reach D n s -> reach D (S n) (s + 1)%N.
+Proof. exact contiguous_closed_under_successor. Qed.
+Print Assumptions C09_contiguous_terms_reach_the_next_depth.
+
+Example C09_terms_with_gaps_do_not : reach [Inv 2%N; Inv 4%N] 1 2%N /\ forall n, ~ reach [Inv 2%N; Inv 4%N] n 3%N.
+Proof. exact gaps_not_closed. Qed.
